@@ -28,10 +28,39 @@ def T_dir(entries=()):
     return ("D", [(n, t) for n, t in entries])
 
 
+T_LINK = ("L",)       # a symbolic link to the directory OUTSIDE (next to DIR and DIR.old) which holds foreign files
+OUTSIDE_FILES = [("precious.txt", b"do not lose me"), ("sub/deep.txt", b"nor me")]
+
+
+def make_outside(root):
+    o = os.path.join(root, "OUTSIDE")
+    os.makedirs(os.path.join(o, "sub"), exist_ok=True)
+    for n, b in OUTSIDE_FILES:
+        with open(os.path.join(o, n), "wb") as f:
+            f.write(b)
+    return o
+
+
+def outside_intact(root):
+    o = os.path.join(root, "OUTSIDE")
+    try:
+        return all(open(os.path.join(o, n), "rb").read() == b for n, b in OUTSIDE_FILES)
+    except OSError:
+        return False
+
+
 def materialise(path, t):
     if t is None:
         return
-    if t[0] == "F":
+    if t[0] == "L":
+        # relative link to <root>/OUTSIDE: DIR and DIR.old are direct children of <root>, their entries may be nested
+        depth = 0
+        p = os.path.dirname(path)
+        while os.path.basename(p) not in ("DIR", "DIR.old") and depth < 20:
+            p = os.path.dirname(p)
+            depth += 1
+        os.symlink(os.path.join(*([".."] * (depth + 1)), "OUTSIDE"), path)
+    elif t[0] == "F":
         with open(path, "wb") as f:
             f.write(t[1])
     else:
@@ -45,6 +74,8 @@ def snapshot(path, digest=False):
     (keeps the magic of `info`, keeps equality observable, keeps Coq terms small)"""
     if not os.path.lexists(path):
         return None
+    if os.path.islink(path):
+        return T_LINK
     if os.path.isdir(path) and not os.path.islink(path):
         return ("D", [(n, snapshot(os.path.join(path, n), digest))
                       for n in sorted(os.listdir(path), key=lambda s: s.encode())])
@@ -57,6 +88,8 @@ def snapshot(path, digest=False):
 
 
 def coq_tree(t):
+    if t[0] == "L":
+        return "Link"
     if t[0] == "F":
         return "File %s" % coq.coq_string(t[1])
     return "Dir [%s]" % "; ".join("(%s, %s)" % (coq.coq_string(n), coq_tree(c)) for n, c in t[1])
@@ -96,11 +129,16 @@ def shapes(rng):
         ("dot-only", T_dir([(".env", T_file(b"SECRET=1\n")), (".git", T_dir([("HEAD", T_file(b"ref: x\n"))]))])),
         ("dot-file", T_dir([(".keep", T_file(b""))])),
         ("dotdot-names", T_dir([("..x", T_file(b"1")), ("...", T_file(b"2"))])),
+        # symbolic links to a directory outside: removing the directory must not follow them
+        ("udata+link", T_dir([("info", T_file(MAGIC + b"\x04\0\0\0")), ("ln", T_LINK), ("task.txt", T_file(b"SESS\n"))])),
+        ("udata+nested-link", T_dir([("info", T_file(MAGIC)), ("d", T_dir([("ln", T_LINK), ("x", T_file(b"1"))]))])),
+        ("link-only", T_dir([("ln", T_LINK)])),
+        ("foreign+link", T_dir([("notes.txt", T_file(b"keep")), ("ln", T_LINK)])),
     ]
 
 
 FOREIGN = {"bad-info", "bad-info+opts", "empty-info", "info-is-dir", "foreign", "foreign-nested", "nested-empty",
-           "file", "dot-only", "dot-file", "dotdot-names"}
+           "file", "dot-only", "dot-file", "dotdot-names", "link-only", "foreign+link"}
 
 
 def gen_histories(ctx):
@@ -143,6 +181,7 @@ def run_history(exe, root, w0, runs):
     if os.path.exists(root):
         shutil.rmtree(root)
     os.mkdir(root)
+    make_outside(root)
     d, o = os.path.join(root, "DIR"), os.path.join(root, "DIR.old")
     materialise(d, w0[0])
     materialise(o, w0[1])
@@ -159,7 +198,8 @@ def run_history(exe, root, w0, runs):
                 pth = os.path.join(d, n)
                 if not os.path.lexists(pth):
                     materialise(pth, t)
-        steps.append({"before": before, "opts": opts, "after": after, "rc": rc, "end": (snapshot(d), snapshot(o))})
+        steps.append({"before": before, "opts": opts, "after": after, "rc": rc, "end": (snapshot(d), snapshot(o)),
+                      "outside_ok": outside_intact(root)})
     shutil.rmtree(root)
     return steps
 
@@ -193,6 +233,8 @@ def evaluate(ctx, steps, hist_pairs, name="cases"):
 def jsonable(t):
     if t is None:
         return None
+    if t[0] == "L":
+        return {"symlink": "../OUTSIDE"}
     if t[0] == "F":
         return {"file": t[1].hex()}
     return {"dir": {n: jsonable(c) for n, c in t[1]}}
@@ -219,8 +261,9 @@ def e2e(ctx, objdir):
     uft = os.path.join(objdir, "uftrace")
     steps, hists = [], []
     sh_ = shapes(ctx.rng)
-    picks = [(a, b) for a in sh_ for b in sh_ if a[0] in ("foreign", "file", "udata", "empty", "absent", "bad-info+opts", "opts-only", "dot-only")
-             and b[0] in ("absent", "foreign", "udata", "file", "dot-file")]
+    picks = [(a, b) for a in sh_ for b in sh_ if a[0] in ("foreign", "file", "udata", "empty", "absent", "bad-info+opts", "opts-only", "dot-only",
+                                                           "udata+link")
+             and b[0] in ("absent", "foreign", "udata", "file", "dot-file", "udata+link", "udata+nested-link")]
     if not ctx.thorough():
         picks = picks[::2]
     for a, b in picks:
@@ -228,6 +271,7 @@ def e2e(ctx, objdir):
         if os.path.exists(work):
             shutil.rmtree(work)
         os.mkdir(work)
+        make_outside(work)
         d, o = os.path.join(work, "DIR"), os.path.join(work, "DIR.old")
         materialise(d, a[1])
         materialise(o, b[1])
@@ -244,8 +288,13 @@ def e2e(ctx, objdir):
             # `after create_directory` is not separately observable end-to-end: judge the whole run with ok_run
             steps.append({"before": before, "opts": [], "after": end, "rc": 0 if rc == 0 else -1,
                           "shape": (a[0], b[0]), "e2e": True})
+            if not outside_intact(work):
+                ctx.violation("C20 violated end to end: `uftrace record -d DIR` deleted files OUTSIDE DIR and DIR.old (reached "
+                              "through a symbolic link inside a directory it removed)",
+                              {"mode": "e2e", "DIR": a[0], "DIR.old": b[0], "run": k}, True)
+                break
             others = sorted(os.listdir(work))
-            if [x for x in others if x not in ("DIR", "DIR.old")]:
+            if [x for x in others if x not in ("DIR", "DIR.old", "OUTSIDE")]:
                 ctx.violation("record created stray entries next to DIR: %s" % others, {"DIR": a[0], "DIR.old": b[0]}, True)
         hists.append((first, (snapshot(d, True), snapshot(o, True))))
         ctx.case(key=("e2e", a[0], b[0]), tags=["e2e:DIR=" + a[0], "e2e:OLD=" + b[0]])
@@ -385,7 +434,8 @@ def common_meta(ctx):
     ctx.assume = [
         "DIR and DIR.old live in a writable parent; the process may read every entry (runs as root, like the test-suite)",
         "rename/mkdir/rmdir/unlink behave as POSIX specifies for the cases modelled (ENOTEMPTY, ENOTDIR, EEXIST)",
-        "no concurrent modification of the directories during a run; symlinks/special files not modelled",
+        "no concurrent modification of the directories during a run; symbolic links to an outside directory are modelled "
+        "(Link) and tied, other special files (fifo, device) are not",
     ]
 
 
@@ -399,6 +449,11 @@ def run(ctx):
         steps = run_history(exe, root, w0, runs)
         for st in steps:
             st["shape"] = shape
+            if not st["outside_ok"]:
+                ctx.violation("C20 violated by in-process create_directory: files OUTSIDE DIR and DIR.old (reached through a "
+                              "symbolic link inside a directory that was removed) were deleted",
+                              {"mode": "inproc", "step": step_json(st), "shape": shape,
+                               "outside": "<root>/OUTSIDE with precious.txt and sub/deep.txt"}, True)
             all_steps.append(st)
             owner.append(hi)
             nontriv = st["before"][0] is not None or st["before"][1] is not None
